@@ -84,7 +84,8 @@ def main():
         vh = os.path.join(wt, "MUTANT", "vh")
         if not os.path.exists(vh):
             os.makedirs(vh)
-        sh("rsync -a --delete --exclude harness/target --exclude miri_c06/target --exclude out --exclude .git --exclude evidence --exclude seeded /verif/ %s/" % vh, "/")
+        # committed state of /verif only (the working tree may be mid-edit); keep the build cache
+        sh("mkdir -p %s/.new && git -C /verif archive HEAD | tar -x -C %s/.new && rsync -a --delete --exclude harness/target --exclude miri_c06/target --exclude out --exclude .new %s/.new/ %s/ && rm -rf %s/.new" % (vh, vh, vh, vh, vh), "/")
         for ct in ["harness/Cargo.toml", "miri_c06/Cargo.toml"]:
             p = os.path.join(vh, ct)
             if os.path.exists(p):
